@@ -248,7 +248,42 @@ func (b *Body) directlyWrapsSentinel(v ssa.Value, name string) bool {
 		}
 	}
 	call, ok := v.(*ssa.Call)
-	if !ok || !staticCalleeIs(&call.Call, "fmt", "Errorf") {
+	if !ok {
+		return false
+	}
+	// an error constructor of the library: a function every return of which is the sentinel,
+	// wraps it with %w, or hands back a parameter whose argument here does
+	if f := call.Call.StaticCallee(); f != nil && f.Pkg == b.Lib && len(f.Blocks) > 0 && f.Signature.Results().Len() == 1 && isErrorType(f.Signature.Results().At(0).Type()) {
+		if b.wrapDepth > 2 {
+			return false
+		}
+		b.wrapDepth++
+		defer func() { b.wrapDepth-- }()
+		rets := liveReturns(f)
+		if len(rets) == 0 {
+			return false
+		}
+		for _, r := range rets {
+			rv := r.Results[0]
+			if p, isP := rv.(*ssa.Parameter); isP {
+				idx := -1
+				for i, fp := range f.Params {
+					if fp == p {
+						idx = i
+					}
+				}
+				if idx < 0 || idx >= len(call.Call.Args) || !b.directlyWrapsSentinel(call.Call.Args[idx], name) {
+					return false
+				}
+				continue
+			}
+			if !b.directlyWrapsSentinel(rv, name) {
+				return false
+			}
+		}
+		return true
+	}
+	if !staticCalleeIs(&call.Call, "fmt", "Errorf") {
 		return false
 	}
 	for _, o := range errorfWrapOperands(call) {
@@ -461,7 +496,7 @@ func ruleErrChain(c *Ctx) {
 					})
 					if uses {
 						users = append(users, fname(fn))
-						if fn != testH && !b.methodOfErrorBuiltOnlyIn(fn, testH) {
+						if fn != testH && !b.methodOfErrorBuiltOnlyIn(fn, testH) && !b.onlyCalledFrom(fn, testH) {
 							bad = fname(fn)
 						}
 					}
